@@ -788,7 +788,7 @@ class TOCSchemas:
 
     def get(self, schema_ref: PluginRef):
         try:
-            self[schema_ref]
+            return self[schema_ref]
         except KeyError:
             return None
 
